@@ -118,6 +118,16 @@ impl<I: SendmsgSyscall> SendmsgSyscall for NioSendmsgSyscall<I> {
                 }
                 let error_kind = Error::last_os_error().kind();
                 if error_kind == ErrorKind::WouldBlock {
+                    if !blocking {
+                        // the caller asked for non-blocking semantics: report what was
+                        // moved so far, or EAGAIN
+                        std::mem::forget(vec);
+                        if sent > 0 {
+                            reset_errno();
+                            return sent.try_into().expect("sent overflow");
+                        }
+                        return r;
+                    }
                     //wait write event
                     left_time = start_time
                         .saturating_add(send_time_limit(fd))
